@@ -96,6 +96,7 @@ type loopInfo struct {
 }
 
 type exitInfo struct {
+	ret     *ssa.Return
 	st      *State
 	cond    string
 	results []Val
